@@ -200,16 +200,40 @@ def build_harness(feats, bins=("director",)):
 
 
 # ----------------------------------------------------------------------------- running scripts
+def _run_shard(binary, shard, timeout):
+    """Run one shard; if the process dies or hangs, fall back to one script at a time and mark
+    the scripts that kill it (the observation file then says CRASH / HANG)."""
+    try:
+        p = sh([binary] + shard, None, timeout)
+        if p.returncode == 0:
+            return
+    except subprocess.TimeoutExpired:
+        pass
+    for f in shard:
+        if os.path.exists(f + ".obs"):
+            continue
+        try:
+            p = sh([binary, f], None, 60)
+            bad = None if p.returncode == 0 else "CRASH the director process died on this script (exit %d)" % p.returncode
+        except subprocess.TimeoutExpired:
+            bad = "HANG the director did not finish this script within 60 s"
+        if bad:
+            open(f + ".obs", "w").write("R 1\n%s\nE\n" % bad)
+            open(f + ".mon", "w").write(bad)
+
+
 def run_director(binary, files, timeout=900):
     """Run the director on script files, sharded over NPROC processes."""
+    for f in files:
+        for ext in (".obs", ".mon"):
+            if os.path.exists(f + ext):
+                os.remove(f + ext)
     shards = [files[i::NPROC] for i in range(NPROC)]
     shards = [s for s in shards if s]
     with concurrent.futures.ThreadPoolExecutor(max_workers=NPROC) as ex:
-        futs = [ex.submit(sh, [binary] + s, None, timeout) for s in shards]
+        futs = [ex.submit(_run_shard, binary, s, timeout) for s in shards]
         for f in futs:
-            p = f.result()
-            if p.returncode != 0:
-                raise RuntimeError("director failed: %s" % p.stderr[-3000:])
+            f.result()
 
 
 def accept(script, proj, observed=None):
